@@ -39,6 +39,7 @@ def monitor(case, tr, raw):
     qthread = {}     # queued fiber -> kernel thread on whose run queue it was put
     ycount = {}      # queued, runnable fiber -> yields of that thread's running fibers since it became runnable there
     nfib = 0
+    maint = {}       # scheduler-loop (maintenance) fiber -> its kernel thread
     for (t, loc, kind, val) in tr:
         if loc == 910 and kind == 99 and val == 0:
             # an idle kernel thread polls (twice per scheduler-loop iteration in T2); a queued, runnable fiber must be
@@ -51,6 +52,9 @@ def monitor(case, tr, raw):
                         return "every kernel thread went idle (3 polls each) while runnable fiber %d stayed queued" % f
         if kind == -9:
             return "the runtime crashed (signal %d) under this schedule" % val
+        if kind == 19 and 400 <= loc < 400 + 20 * 64 and (loc - 400) % 20 == 7 and val >= 1000:
+            maint[val] = (loc - 400) // 20          # kernel thread (loc-400)/20 names its scheduler-loop fiber
+            continue
         if kind == 19 and 400 <= loc < 400 + 20 * 64 and (loc - 400) % 20 == 8:
             # a fiber_manager_yield on kernel thread t: every fiber that is queued on t's run queue and runnable (not
             # still SAVING on its previous thread) must be handed out after a bounded number of them (C10)
@@ -104,6 +108,10 @@ def monitor(case, tr, raw):
         elif loc == EV_SCHED:
             if val in destroyed:
                 return "reclaimed fiber %d scheduled" % val
+            if val in maint:
+                return ("the scheduler-loop fiber %d of kernel thread %d was put on a run queue like a user fiber: another "
+                        "kernel thread can take it and run this thread's scheduler loop (one fiber run by two threads)"
+                        % (val, maint[val]))
             pend[val] = pend.get(val, 0) + 1
             qthread[val] = t
             ycount[val] = 0
